@@ -269,3 +269,54 @@ Proof.
   destruct (force_complete _ _ _ _ H1 Hr1) as [n1 F1]. destruct (force_complete _ _ _ _ H2 Hr2) as [n2 F2].
   eapply force_deterministic; eassumption.
 Qed.
+
+(** ---- the cut and the error laws, stated on the trampoline itself ------------------------- *)
+
+(** the top promise executes a cut addressed to [c]; [q] is the first frame that
+    stands for [c]: whatever resuming on the frames BELOW [q] gives is what the
+    trampoline returns -- the frames in between, and [q] with its remaining
+    alternatives, have no influence *)
+Theorem force_after_cut :
+  forall p c o above q below st st1 r st',
+    Eval p st (VCut c o) st1 ->
+    stands_for c q = true -> forallb (fun x => negb (stands_for c x)) above = true ->
+    Resume o below st1 r st' -> r <> FOutOfFuel ->
+    exists n, force n (p :: above ++ q :: below) st = (r, st').
+Proof.
+  intros p c o above q below st st1 r st' Hev Hq Ha Hres Hr.
+  apply force_complete; [|exact Hr].
+  eapply RunCons; [exact Hev|]. apply (cut_discards_exactly c o above q below st1 r st' Hq Ha). exact Hres.
+Qed.
+
+(** the top promise raises an error that no frame of the stack handles: the
+    trampoline returns that error and the state in which it was raised *)
+Theorem force_uncaught :
+  forall p e xs stack st st1,
+    Eval p st (VErr e xs) st1 -> e <> EFuel ->
+    (forall pre q0 post, stack = pre ++ q0 :: post ->
+       p_exited q0 <> None \/ handles q0 e (fold_left (fun acc x => pass x acc) pre xs) = None) ->
+    exists n, force n (p :: stack) st = (FError e, st1).
+Proof.
+  intros p e xs stack st st1 Hev He Hno.
+  apply force_complete; [|discriminate].
+  eapply RunCons; [exact Hev|]. apply RsErr. apply uncaught_reaches_caller; assumption.
+Qed.
+
+(** ... and one that the frame [q] is the innermost to handle: the recovery goal
+    is called with [q]'s continuation on the frames below [q]; the frames above
+    it are gone, whatever alternatives they held *)
+Theorem force_caught_innermost :
+  forall p e xs above q below st st1 recovery k env' f g st2 r st',
+    Eval p st (VErr e xs) st1 -> e <> EFuel ->
+    (forall pre q0 post, above = pre ++ q0 :: post ->
+       p_exited q0 <> None \/ handles q0 e (fold_left (fun acc x => pass x acc) pre xs) = None) ->
+    p_exited q = None ->
+    handles q e (fold_left (fun acc x => pass x acc) above xs) = Some (recovery, k, env') ->
+    call_goal f recovery k env' st1 = (g, st2) ->
+    Run (g :: below) st2 r st' -> r <> FOutOfFuel ->
+    exists n, force n (p :: above ++ q :: below) st = (r, st').
+Proof.
+  intros p e xs above q below st st1 recovery k env' f g st2 r st' Hev He Hno Hex Hh Hc Hrun Hr.
+  apply force_complete; [|exact Hr].
+  eapply RunCons; [exact Hev|]. apply RsErr. eapply recover_innermost; eassumption.
+Qed.
